@@ -178,6 +178,9 @@ func gridShutdown() []tcpx.Spec {
 	return []tcpx.Spec{
 		{Concurrent: true, StopEarly: true, Conns: []tcpx.ConnSpec{ok, {Class: "cipher", Cipher: 0}}},
 		{Concurrent: true, StopEarly: true, Conns: []tcpx.ConnSpec{ok, {Class: "ok", Cipher: 2, Up: 1, Down: 1}}},
+		// a handler sitting in a connect that never completes: closing the listener releases it
+		// (the serving context is cancelled), and serving stops
+		{Concurrent: true, StopEarly: true, Conns: []tcpx.ConnSpec{{Class: "hang", Cipher: 0, Up: 3}, ok}},
 		// the listener comes from a listener manager (shared socket with its own accept goroutine)
 		{Concurrent: true, StopEarly: true, Shared: true, Conns: []tcpx.ConnSpec{ok, {Class: "ok", Cipher: 2, Up: 1, Down: 1}}},
 	}
